@@ -10,6 +10,7 @@ static Fault LoadFault(const js::J& f) {
   ft.touch = f["touch"].boolean(false);
   ft.by_signal = f["signal"].boolean(false);
   ft.bad_depfile = f["baddep"].boolean(false);
+  ft.trim_depfile = f["trimdep"].boolean(false);
   return ft;
 }
 
